@@ -66,6 +66,13 @@ class Closure:
         self.params, self.rest, self.body, self.env, self.name = params, rest, body, env, name
 
 
+class CaseClosure:
+    """case-lambda: the first clause whose formals agree with the number of arguments"""
+
+    def __init__(self, clauses):
+        self.clauses = clauses
+
+
 class Prim:
     def __init__(self, name, fn, special=None):
         self.name, self.fn, self.special = name, fn, special
@@ -126,7 +133,7 @@ def enc(v):
         return "(void)"
     if v is UNSPEC:
         return "(unspec)"
-    if isinstance(v, (Closure, Prim)):
+    if isinstance(v, (Closure, CaseClosure, Prim)):
         return "(clos)"
     if isinstance(v, Cont):
         return "(cont)"
@@ -212,7 +219,7 @@ class Scope:
         return False
 
 
-SPECIAL = {"quote", "quasiquote", "if", "define", "set!", "lambda", "λ", "fn", "let", "let*", "letrec", "letrec*", "begin", "cond", "case",
+SPECIAL = {"quote", "quasiquote", "if", "define", "set!", "lambda", "case-lambda", "λ", "fn", "let", "let*", "letrec", "letrec*", "begin", "cond", "case",
            "and", "or", "when", "unless", "do", "with-handler", "named-let", "else", "=>", "unquote", "unquote-splicing", "define-values",
            "while"}
 
@@ -323,7 +330,7 @@ class Resolver:
             raise CompileError("empty application")
         h = e[0]
         if isinstance(h, Sym) and h in SPECIAL and not sc.has(h):
-            return getattr(self, "f_" + {"set!": "set", "let*": "letstar", "letrec*": "letrec", "λ": "lambda", "fn": "lambda",
+            return getattr(self, "f_" + {"set!": "set", "let*": "letstar", "letrec*": "letrec", "λ": "lambda", "fn": "lambda", "case-lambda": "caselambda",
                                          "with-handler": "handler"}.get(h, str(h)))(e, sc, name)
         return ("app", self.x(h, sc), [self.x(a, sc) for a in e[1:]])
 
@@ -372,6 +379,16 @@ class Resolver:
         names, rest = self.params(e[1])
         sc2 = Scope(names + ([rest] if rest else []), sc)
         return ("lambda", names, rest, self.body(list(e[2:]), sc2), name)
+
+    def f_caselambda(self, e, sc, name):
+        clauses = []
+        for c in e[1:]:
+            if not isinstance(c, (tuple, Pair)) or len(c) < 2:
+                raise CompileError("bad case-lambda clause")
+            names, rest = self.params(c[0])
+            sc2 = Scope(names + ([rest] if rest else []), sc)
+            clauses.append((names, rest, self.body(list(c[1:]), sc2)))
+        return ("caselambda", clauses, name)
 
     def f_let(self, e, sc, name):
         if len(e) >= 3 and isinstance(e[1], Sym):
@@ -648,6 +665,8 @@ class Interp:
             return ("ev", x[1], env, ("if", x[2], x[3], env, k))
         if t == "lambda":
             return ("ret", Closure(x[1], x[2], x[3], env, x[4]), k)
+        if t == "caselambda":
+            return ("ret", CaseClosure([Closure(n, r, b, env, x[2]) for n, r, b in x[1]]), k)
         if t == "begin":
             return ("ev", x[1][0], env, ("seq", x[1], 1, env, k)) if len(x[1]) > 1 else ("ev", x[1][0], env, k)
         if t == "app":
@@ -796,6 +815,11 @@ class Interp:
             kk = kk[-1]
 
     def apply(self, f, args, k):
+        if isinstance(f, CaseClosure):
+            for c in f.clauses:
+                if len(args) == len(c.params) or (c.rest is not None and len(args) > len(c.params)):
+                    return self.apply(c, args, k)
+            raise SchemeError(ErrObj("arity"))
         if isinstance(f, Closure):
             n = len(f.params)
             if len(args) < n or (f.rest is None and len(args) > n):
@@ -878,10 +902,10 @@ def equal(a, b):
 
 
 def eqv(a, b):
-    if isinstance(a, (tuple, Pair, MVec, IVec, Box, HM, Closure, str)) and not isinstance(a, (Sym, Char)):
+    if isinstance(a, (tuple, Pair, MVec, IVec, Box, HM, Closure, CaseClosure, str)) and not isinstance(a, (Sym, Char)):
         if isinstance(a, tuple) and a == () and b == ():
             return True
-        return True if a is b else (UNSPEC if enc(a) == enc(b) and not isinstance(a, (MVec, Box, Closure)) else False)
+        return True if a is b else (UNSPEC if enc(a) == enc(b) and not isinstance(a, (MVec, Box, Closure, CaseClosure)) else False)
     if is_num(a) and is_num(b) and (abs(a) if not isinstance(a, float) else 0) > (1 << 60):
         return UNSPEC if enc(a) == enc(b) else False
     return enc(a) == enc(b)
@@ -965,8 +989,8 @@ def install_prims(I):
     d("number?", is_num)
     d("integer?", lambda x: isinstance(x, int) and not isinstance(x, bool) or (isinstance(x, float) and x == int(x) if isinstance(x, float) and x == x and abs(x) != float("inf") else False))
     d("boolean?", lambda x: isinstance(x, bool))
-    d("procedure?", lambda x: isinstance(x, (Closure, Prim, Cont)))
-    d("function?", lambda x: isinstance(x, (Closure, Prim, Cont)))
+    d("procedure?", lambda x: isinstance(x, (Closure, CaseClosure, Prim, Cont)))
+    d("function?", lambda x: isinstance(x, (Closure, CaseClosure, Prim, Cont)))
     d("void?", lambda x: x is VOID)
     d("char?", lambda x: isinstance(x, Char))
     d("vector?", lambda x: isinstance(x, (MVec, IVec)))
@@ -1000,7 +1024,7 @@ def install_prims(I):
     d("set-box!", set_box)
 
     def hkey(k):
-        if isinstance(k, (MVec, Box, Closure, Prim, Cont)):
+        if isinstance(k, (MVec, Box, Closure, CaseClosure, Prim, Cont)):
             return None
         return enc(k)
 
